@@ -13,6 +13,7 @@ SUBSETS = {
     "dates": ["tests/test_date.py", "tests/frames/test_iau1980.py", "tests/propagators/test_sgp4beta.py"],
     "iter": ["tests/propagators", "tests/orbits/test_ephem.py", "tests/orbits/test_orbit.py"],
     "links": ["tests/utils/test_node.py", "tests/frames", "tests/env/test_jpl.py", "tests/orbits/test_forms.py"],
+    "streams": ["tests/propagators/test_listeners.py", "tests/orbits/test_ephem.py", "tests/frames/test_stations.py"],
 }
 ALL = ["--doctest-modules", "beyond", "tests"]
 
@@ -173,12 +174,14 @@ def validate_links(ctx, events, label):
 
 
 def run(ctx, pid, what):
-    """what: 'dates' | 'iter' | 'links'"""
+    """what: 'dates' | 'iter' | 'links' | 'streams'"""
     thorough = ctx.tier == "thorough"
     paths = ALL if thorough else SUBSETS[what]
     events, info = record(ctx, paths, what)
-    keep = {"dates": ("date", "scale", "plus", "minus"), "iter": ("iter",), "links": ("link",)}[what]
+    keep = {"dates": ("date", "scale", "plus", "minus"), "iter": ("iter",), "links": ("link",), "streams": ("iter",)}[what]
     events = [e for e in events if e["k"] in keep]
+    if what == "streams":        # iterations with listeners: the stream clauses (fresh, ordered, between) are the ones exercised
+        events = [e for e in events if e["listeners"] > 0]
     n = validate_links(ctx, events, what) if what == "links" else validate_events(ctx, pid, events, what)
     info["validated"] = n
     ctx.extra.setdefault("suite_traces", {})[what] = info
